@@ -15,11 +15,14 @@ MANIFEST = {
  'technique': 'Lean 4 proof (refinement to a decision list, invariants under edits) + table extraction + differential correspondence',
  'design_ref': 'DESIGN.md §6 C03',
 }
-THEOREMS = ['C03.check_eq_spec', 'C03.anti_symm', 'C03.owner_all', 'C03.case_insens',
-            'C03.unknown_only_defaults', 'C03.invert_invert', 'C03.isAnti_invert',
-            'C03.fromChannel_makeChannel', 'C03.rfc1459_table_ok', 'C03.edits_preserve_wf',
+THEOREMS = ['C03.check_eq_spec', 'C03.anti_symm', 'C03.owner_all', 'C03.case_insens', 'C03.add_case_insens',
+            'C03.unknown_only_defaults', 'C03.invert_invert', 'C03.isAnti_invert', 'C03.invertCapability_toLower',
+            'C03.fromChannel_makeChannel', 'C03.edits_preserve_wf', 'C03.initial_strong', 'C03.history_wf',
             'C03.setDefaults_keeps_antiowner', 'C03.unknown_never_owner', 'C03.touch_invisible',
-            'C03.checkCapabilities_spec']
+            'C03.touch_invisible_check', 'C03.checkCapabilities_spec', 'C03.anti_symm_needs_valid',
+            # obligations on the extracted tables (decide against what /repo says now)
+            'C03.rfc1459_table_ok', 'C03.chanTypes_no_dash', 'C03.chanTypes_no_o', 'C03.channel_default_ok',
+            'C03.channel_default_strong', 'C03.default_caps_valid']
 TRUSTED = ['Lean 4.33.0 kernel; axioms ⊆ {propext, Classical.choice, Quot.sound}',
            'harness/extractors/ircdb_caps.py (rfc1459 table, chantypes/channellen, defaultOff, shipped default capabilities → Gen/IrcDbCaps.lean)',
            'harness/c03.py generators, canonicalisation and the independent decision-list oracle; hex line protocol',
@@ -290,11 +293,17 @@ class Impl(object):
                 su, sc = ircdb.users, ircdb.channels
                 d = ircdb.checkCapability.__defaults__
                 ircdb.checkCapability.__defaults__ = (self.U, self.C) + d[2:]
+                before = self.hosts_snapshot()
                 try:
-                    r = ircdb.checkCapabilities(op[1], list(op[2]), requireAll=bool(op[3]))
-                    return ('ok\t%d' % (1 if r else 0) if isinstance(r, bool) else 'notbool\t%r' % (r,)), []
+                    try:
+                        r = ircdb.checkCapabilities(op[1], list(op[2]), requireAll=bool(op[3]))
+                        out = 'ok\t%d' % (1 if r else 0) if isinstance(r, bool) else 'notbool\t%r' % (r,)
+                    except Exception as e:
+                        out = self.err(e)
                 finally:
                     ircdb.checkCapability.__defaults__ = d
+                after = self.hosts_snapshot()
+                return out, [('uhosts', i, after[i]) for i in after if after[i] != before.get(i)]
             if k == 'dump':
                 return self.dump(), []
         except Exception as e:
@@ -469,8 +478,12 @@ def run_scenario(impl, ops, wf, kind):
             if single and not out.startswith('ok\t'):
                 fail('checkCapability(%r, %r, flags=%s) raised (%s) for a single-word capability' % (h, cap, fl_str(fl), out))
             if out.startswith('err'): tags.add('raises')
+            # the domain predicate of the theorems (Lean `validCap`) is the one the oracle uses
+            lines.append('validCap\t' + wire.enc(cap)); outs.append('1' if o_valid(cap) else '0')
             if st is not None and o_valid(cap):
                 want, how = o_decide(st, h, cap, fl)
+                # ... and the decision list of the theorems (Lean `Spec.decide`) is the oracle's
+                lines.append('spec\t%s\t%s\t%s' % (wire.enc(h), wire.enc(cap), fl_str(fl))); outs.append('ok\t%d' % want)
                 tags.update(how)
                 if any(fl): tags.add('flags')
                 if out != 'ok\t%d' % want:
@@ -497,6 +510,8 @@ def run_scenario(impl, ops, wf, kind):
             lines.append(wire_line(s)); outs.append('ok'); tags.add('dup-removal')
             if st is not None:
                 st.users[s[1]].masks = list(s[2])
+    if st is not None:
+        lines.append('wf'); outs.append('1')       # the invariant of `history_wf` / hypothesis of `check_eq_spec`
     inp = {'ops': [list(o) for o in ops], 'wf': wf}
     if kind == 'replay':
         inp['trace'] = trace
@@ -586,7 +601,8 @@ def alg_case(impl, s, kind='algebra'):
     if outs[3] == '1': tags.append('alg-anti')
     if outs[4].startswith('err'): tags.append('alg-invert-raises')
     c = Case({'op': 'algebra', 's': s}, impl='\n'.join(outs), oracle_ok=ok, oracle_msg=msg, tags=tags, kind=kind)
-    return c, ['%s\t%s' % (o, wire.enc(s)) for o in ALG_OPS]
+    c.impl += '\n' + ('1' if o_valid(s) else '0')
+    return c, ['%s\t%s' % (o, wire.enc(s)) for o in ALG_OPS + ['validCap']]
 
 # ---- exhaustive small universe ---------------------------------------------------------
 def exhaustive_scenarios():
@@ -654,7 +670,7 @@ def run(ctx):
     if ctx.thorough:
         cases, lines, spans, decisions = explore(ctx, 6000, 3000, 60000, exhaustive=True, corpus=load_corpus())
     else:
-        cases, lines, spans, decisions = explore(ctx, 450, 200, 4000, corpus=load_corpus())
+        cases, lines, spans, decisions = explore(ctx, 1800, 700, 12000, corpus=load_corpus())
     if build.driver_ok:
         fill_model(cases, lines, spans)
     def search(disagreements, broken):
